@@ -1,6 +1,6 @@
 //go:build verif
 
-//verif:bounds framebuffer console: depth 8/16 with pitch padding 3 and a one-row logo (quick) or depth 8/15/16/24/32, padding {0,3}, logo {0,1} (thorough), RGB mask layout 5-5-5/5-6-5/8-8-8 (quick) or fully symbolic positions/sizes (thorough), colour indices 0..15 (quick) / 0..255 (thorough), pitch = row bytes + {0,3}, logo offset {0,1} rows, synthetic fonts 8x2 (1 byte/row) and 9x2 (2 bytes/row) with 4 glyphs of symbolic data, grid 2x2 cells plus one remainder column and one remainder row; every framebuffer byte arbitrary; every 32-bit x, y, width, height, line count; character < 4 (the synthetic fonts have 4 glyphs), every 8-bit colour index
+//verif:bounds framebuffer console: depth 8/16 (Fill: 8/16/24) with pitch padding 3 and a one-row logo (quick) or depth 8/15/16/24/32, padding {0,3}, logo {0,1} (thorough), RGB mask layout 5-5-5/5-6-5/8-8-8 (quick) or fully symbolic positions/sizes (thorough), colour indices 0..15 (quick) / 0..255 (thorough), pitch = row bytes + {0,3}, logo offset {0,1} rows, synthetic fonts 8x2 (1 byte/row) and 9x2 (2 bytes/row) with 4 glyphs of symbolic data, grid 2x2 cells plus one remainder column and one remainder row; every framebuffer byte arbitrary; every 32-bit x, y, width, height, line count; character < 4 (the synthetic fonts have 4 glyphs), every 8-bit colour index
 //verif:assumes the frame buffer is a Go slice of exactly height*pitch bytes (an access outside it is a Go index panic = violation); palette = the driver's own default palette; port writes stubbed
 package console
 
@@ -25,10 +25,10 @@ type vfFb struct {
 	fontData                              []byte
 }
 
-func vfNewFb() *vfFb {
+func vfNewFb(quickDepths int) *vfFb {
 	f := &vfFb{}
-	// quick: 8 and 16 bpp; thorough: all five depths
-	f.bpp = [5]uint32{8, 16, 15, 24, 32}[zzverif.Choice("bpp", zzverif.Param("depths", 2, 5))]
+	// quick: 8 and 16 bpp (Fill: also 24, which has its own fill routine); thorough: all five depths
+	f.bpp = [5]uint32{8, 16, 24, 15, 32}[zzverif.Choice("bpp", zzverif.Param("depths", quickDepths, 5))]
 	if zzverif.Choice("font", 2) == 0 {
 		f.gw, f.bpr = 8, 1
 	} else {
@@ -136,7 +136,7 @@ func (f *vfFb) classify(i int) (pix bool, cx, cy, rx, ry, comp uint32) {
 
 //verif:split 5
 func Verif_C19_fb_write() {
-	f := vfNewFb()
+	f := vfNewFb(2)
 	ch, fg, bg := zzverif.U8("ch")&3, vfColour("fg"), vfColour("bg")
 	x, y := zzverif.U32("x"), zzverif.U32("y")
 	// case split: coordinates inside the grid are enumerated (so that pixel addresses are concrete on each
@@ -170,7 +170,7 @@ func Verif_C19_fb_write() {
 
 //verif:split 5
 func Verif_C19_fb_fill() {
-	f := vfNewFb()
+	f := vfNewFb(3)
 	bg := vfColour("bg")
 	x, y, w, h := zzverif.U32("x"), zzverif.U32("y"), zzverif.U32("w"), zzverif.U32("h")
 	// case split as in fb_write: small values are enumerated, large ones stay symbolic (the driver clamps them to constants)
@@ -212,7 +212,7 @@ func Verif_C19_fb_fill() {
 
 //verif:split 5
 func Verif_C19_fb_scroll() {
-	f := vfNewFb()
+	f := vfNewFb(2)
 	lines := zzverif.U32("lines")
 	dir := ScrollDir(zzverif.Choice("dir", 2))
 	if lines <= f.rows+1 {
